@@ -186,6 +186,7 @@ type sBackend struct {
 	probeOK  bool
 	probeSlow time.Duration
 	arrivals int
+	wsServing bool // an Upgrade request arrived here (scenario sysws)
 	probes   int
 	lastProbeAt time.Duration
 	inflight int
@@ -362,6 +363,9 @@ func (b *sBackend) serve(c net.Conn) {
 			return
 		}
 		if req.Header.Get("Upgrade") != "" && wsBackendHook != nil {
+			env.mu.Lock()
+			b.wsServing = true
+			env.mu.Unlock()
 			wsBackendHook(c, br, req)
 			return
 		}
